@@ -24,6 +24,8 @@ structure FloatOps (F : Type) where
   sToMs : F → Nat
   /-- `a > b` -/
   gt : F → F → Bool
+  /-- `a == b` (IEEE equality) -/
+  feq : F → F → Bool
   /-- `(1.0 - 0.1) * rtt + 0.1 * sample` -/
   ewma : F → F → F
   /-- `(4.0 * rtt).max((2*MSS) as f64 / send_rate as f64)` -/
@@ -110,7 +112,7 @@ def rateLimitedUpdate (set : List RecvEntry) (now recv rttMs : Nat) : R (List Re
   let set := set ++ [{ value := recv, ts := now, isInitial := false }]
   -- `now_ms - e.timestamp_ms` is a u64 subtraction
   if set.any (fun e => e.ts > now) then .error .overflow else
-  let set := set.filter (fun e => now - e.ts < 2 * rttMs)
+  let set := set.filter (fun e => now - e.ts ≤ 2 * rttMs)
   match setMax set with
   | .error t => .error t
   | .ok m => .ok (set, m)
@@ -137,6 +139,7 @@ def tcpInv (ops : FloatOps F) (rtt : F) (target : Nat) : Nat → F → F → R F
   | fuel+1, a, b =>
     let delta := ops.mul005 target
     let c := ops.mid b a
+    if ops.feq c a || ops.feq c b then .ok c else      -- the interval cannot be narrowed any further
     let rate := ops.tcpRate rtt c
     if rate > target then
       if rate - target ≤ delta then .ok c else tcpInv ops rtt target fuel c b
@@ -211,8 +214,7 @@ def nofeedbackExpired (ops : FloatOps F) (s : State F) (now : Nat) : R (State F)
       match s.rttS with
       | some rtt =>
         let recover := ops.initRate rtt
-        if 2 * recover > u32max then .error .overflow else
-        if s.nofeedbackIdle ∧ s.sendRate < 2 * recover then .ok s else .ok (halve s)
+        if s.nofeedbackIdle ∧ s.sendRate < satMul2 recover then .ok s else .ok (halve s)
       | none => .ok (halve s)
     | .eqn tcp =>
       match s.rttS with
